@@ -101,8 +101,13 @@ def s13_7(ctx, prog):
         return False
 
     for g, vn, span in sites:
-        ctx.check(ok(g), 'S13.7', '%s in %s' % (vn, short(g.path)), 'outside-accounting',
-                  '%s is constructed only inside the token-level parenthesis accounting decided by S13.3 (tokens_to_operator_tree and its private tree:: helpers); here it is constructed in %s, which S13.3 did not analyse' % (vn, short(g.path)), span=span)
+        inst = '%s in %s' % (vn, short(g.path))
+        if ok(g):
+            ctx.ok('S13.7', inst, '%s is constructed inside the token-level parenthesis accounting decided by S13.3' % vn, span=span)
+        else:
+            # not a proof of a wrong report: a place S13.3 did not analyse, so the clause is undecided on this tree (fail closed)
+            ctx.unrecognised('S13.7', inst, 'outside-accounting',
+                             '%s is constructed in %s, outside the token-level parenthesis accounting decided by S13.3 (tokens_to_operator_tree and its private tree:: helpers): a second place where input can be called unbalanced, which no rule has analysed' % (vn, short(g.path)), span=span)
 
 
 def modes(ctx, prog, T):
